@@ -59,7 +59,7 @@ type Proof struct {
 }
 
 func (p *Proof) IsValid(public Public) bool {
-	if p == nil {
+	if p == nil || p.Commitment == nil {
 		return false
 	}
 	if !public.Prover.ValidateCiphertexts(p.A) {
